@@ -28,6 +28,8 @@ type CaseGraph struct {
 	// PreMax (C01 only): the graph object is first compiled with WithMaxRunSteps(PreMax) and that runnable dropped;
 	// the runnable under test comes from a second Compile of the same object with the options of the spec
 	PreMax int `json:"premax,omitempty"`
+	// ShareBr (C01 only): branches with the same definition are one GraphBranch value added to several nodes
+	ShareBr bool `json:"sharebr,omitempty"`
 }
 
 func genC01(t *rapid.T) CaseGraph {
@@ -42,9 +44,15 @@ func genC01(t *rapid.T) CaseGraph {
 		cfg.MaxNodes = 6
 	}
 	c := CaseGraph{Spec: gkit.GenSpec(t, mode, cfg)}
+	if mode == "pregel" && rapid.IntRange(0, 9).Draw(t, "sharedBranch") == 0 {
+		c.Spec = genSharedBranch(t)
+		c.ShareBr = true
+	} else if mode == "pregel" && rapid.IntRange(0, 4).Draw(t, "shareBr") == 0 {
+		c.ShareBr = true
+	}
 	c.Input = gkit.GenInput(t, c.Spec.In)
 	c.Paradigm = "invoke"
-	if rapid.IntRange(0, 4).Draw(t, "stream") == 0 {
+	if rapid.IntRange(0, 4).Draw(t, "stream") == 0 || (c.ShareBr && rapid.Bool().Draw(t, "streamShared")) {
 		c.Paradigm = "stream"
 	}
 	if mode == "pregel" && rapid.IntRange(0, 5).Draw(t, "callMax") == 0 {
@@ -62,10 +70,37 @@ func genC01(t *rapid.T) CaseGraph {
 }
 
 func (c CaseGraph) buildOpts() *gkit.BuildOpts {
-	if c.PreMax <= 0 {
+	if c.PreMax <= 0 && !c.ShareBr {
 		return nil
 	}
-	return &gkit.BuildOpts{PreCompile: []compose.GraphCompileOption{compose.WithMaxRunSteps(c.PreMax)}}
+	bo := &gkit.BuildOpts{ShareBranches: c.ShareBr}
+	if c.PreMax > 0 {
+		bo.PreCompile = []compose.GraphCompileOption{compose.WithMaxRunSteps(c.PreMax)}
+	}
+	return bo
+}
+
+// genSharedBranch: two producers of one step whose branches over the same two targets are defined identically (and
+// therefore are one shared GraphBranch value); one of the producers has another branch besides it, in a generated
+// position, and the branches are added in a generated order.
+func genSharedBranch(t *rapid.T) *gkit.Spec {
+	sp := &gkit.Spec{Mode: "pregel", In: "S", Out: "M"}
+	for _, k := range []string{"a", "b"} {
+		sp.Nodes = append(sp.Nodes, gkit.NodeSpec{Key: k, Kind: "lambda", In: "S"})
+		sp.Edges = append(sp.Edges, gkit.Edge{From: gkit.Start, To: k})
+	}
+	for _, k := range []string{"t1", "t2"} {
+		sp.Nodes = append(sp.Nodes, gkit.NodeSpec{Key: k, Kind: "lambda", In: "S", OutputKey: k, Digest: true})
+		sp.Edges = append(sp.Edges, gkit.Edge{From: k, To: gkit.End})
+	}
+	same := gkit.Branch{Targets: []string{"t1", "t2"}, Multi: rapid.Bool().Draw(t, "sharedMulti"), Stream: rapid.Bool().Draw(t, "sharedStream"), Salt: rapid.IntRange(0, 7).Draw(t, "sharedSalt")}
+	other := gkit.Branch{From: "a", Targets: []string{"t1", "t2"}, Multi: true, Stream: rapid.Bool().Draw(t, "otherStream"), Salt: rapid.IntRange(8, 15).Draw(t, "otherSalt")}
+	sa, sb := same, same
+	sa.From, sb.From = "a", "b"
+	sa.Targets, sb.Targets = append([]string(nil), same.Targets...), append([]string(nil), same.Targets...)
+	orders := [][]gkit.Branch{{other, sa, sb}, {sb, other, sa}, {sa, other, sb}, {sb, sa, other}}
+	sp.Branches = orders[rapid.IntRange(0, len(orders)-1).Draw(t, "branchOrder")]
+	return sp
 }
 
 // classifyErr maps a run error to the failure classes of the reference model.
@@ -178,6 +213,9 @@ func checkC01(c CaseGraph) (*vkit.Failure, vkit.Meta) {
 	}
 	if c.PreMax > 0 {
 		m.Labels = append(m.Labels, "compiled-before-with-another-step-limit")
+	}
+	if c.ShareBr {
+		m.Labels = append(m.Labels, "equal-branches-are-one-shared-value")
 	}
 	if edgeBesideBranch(c.Spec) {
 		m.Labels = append(m.Labels, "edge-beside-branch-to-same-successor")
